@@ -574,3 +574,29 @@ pub fn shape_of(out: &SimOut, stats: &mut Stats) -> u64 {
     let _ = stats;
     h.0
 }
+
+/// Thorough tier only: a fraction of the cases is made much larger (long traces,
+/// more machines per side, higher iteration bound) - deeper bounds than the quick
+/// tier ever reaches. Case content stays a pure function of (seed, tier).
+pub fn maybe_deepen(
+    g: &mut Gen,
+    tier: crate::sup::Tier,
+    c: &mut SimCase,
+    tweak: &dyn Fn(&mut Gen, &mut MachCfg),
+) {
+    if tier != crate::sup::Tier::Thorough || !g.chance(0.06) {
+        return;
+    }
+    c.trace = gen_trace(g, 2000);
+    c.args.max_sim_iterations = *g.pick(&[10_000, 20_000]);
+    let mut cfg = sim_mach_cfg(g);
+    tweak(g, &mut cfg);
+    if !c.mc.is_empty() || !c.ms.is_empty() {
+        while c.mc.len() < 4 && g.chance(0.5) {
+            c.mc.push(mach::gen_machine(g, &cfg));
+        }
+        while c.ms.len() < 3 && g.chance(0.4) {
+            c.ms.push(mach::gen_machine(g, &cfg));
+        }
+    }
+}
